@@ -373,3 +373,71 @@ package xmpp
 //@   assigns c.Session.SMState.UnAckQueue.Uslice
 //@   elems c.Session.SMState.UnAckQueue.Uslice
 //@   emits Write
+
+// ---------------------------------------------------------------------------
+// C05 / C09 / C12: the client's receive loop
+//
+//@ event StreamErrRead(pk Iface)
+//@ event Spawn_route(r Ref, s Iface, p Iface)
+//@ pred pendingWf(r) := r.IQResultRoutes != nil ==> alls(k, mapHas(r.IQResultRoutes, k) ==> mapGet(r.IQResultRoutes, k) != nil)
+//@ pred recvOK(c) := clientOK(c) && c.Session != nil && c.transport != nil && c.router != nil && wfRouter(c.router) && pendingWf(c.router) && c.ErrorHandler != nil
+//@ pred reads(n)  := count(PacketRead) - old(count(PacketRead)) == n
+//@ pred newReads() := count(PacketRead) - old(count(PacketRead))
+//@ pred newSpawns() := count(Spawn_route) - old(count(Spawn_route))
+//
+//@ func (*xmpp.Client).recv(c, keepaliveQuit)
+//@   requires recvOK(c)
+//@   ensures [C12.quit]  count(Close) == old(count(Close)) + 1 && last(Close) == keepaliveQuit
+//@   ensures [C05.once]  newSpawns() == newReads() || (newSpawns() + 1 == newReads() && !isStanza(last(PacketRead)))
+//@   ensures [C05.same]  forall(j, 0, newSpawns(), arg(Spawn_route, old(count(Spawn_route)) + j, 2) == arg(PacketRead, old(count(PacketRead)) + j) && arg(Spawn_route, old(count(Spawn_route)) + j, 1) == iface(c))
+//@   ensures [C05.acks]  count(Send) - old(count(Send)) == count(AckReqRead) - old(count(AckReqRead))
+//@   ensures [C09.count] c.Session.SMState.Inbound - old(c.Session.SMState.Inbound) == count(StanzaRead) - old(count(StanzaRead))
+//@   ensures [C12.once]  !(newSpawns() + 1 == newReads() && typeof(last(PacketRead)) == stanza.StreamClosePacket) ==> count(ErrorHandler) - old(count(ErrorHandler)) == count(StreamErrRead) - old(count(StreamErrRead)) + 1 && c.CurrentState.state == StateDisconnected
+//@   ensures [C12.event] (!(newSpawns() + 1 == newReads() && typeof(last(PacketRead)) == stanza.StreamClosePacket) && c.Handler != nil) ==> count(EventHandler) - old(count(EventHandler)) == count(StreamErrRead) - old(count(StreamErrRead)) + 1 && last(EventHandler).State.state == StateDisconnected && last(EventHandler).SMState == c.Session.SMState && atlast(ErrorHandler) < atlast(EventHandler)
+//@   assigns c.Session.SMState.Inbound, c.Session.SMState.UnAckQueue.Uslice, c.CurrentState.state
+//@   elems c.Session.SMState.UnAckQueue.Uslice, c.router.IQResultRoutes
+//@   emits PacketRead, StanzaRead, AckReqRead, StreamErrRead, Send, SendAttrs, Write, Spawn_route, Spawn, ErrorHandler, EventHandler, Close, HandlePacket, SendRaw, ChanSend
+//@   at call Send assert [C09.h] typeof($packet) == stanza.SMAnswer && $packet.(stanza.SMAnswer).H == c.Session.SMState.Inbound
+//@   loop 1:
+//@     invariant recvOK(c) && c.Session == old(c.Session) && c.Handler == old(c.Handler)
+//@     invariant [C05.once]  newSpawns() == newReads() && newReads() >= 0
+//@     invariant [C05.same]  forall(j, 0, newSpawns(), arg(Spawn_route, old(count(Spawn_route)) + j, 2) == arg(PacketRead, old(count(PacketRead)) + j) && arg(Spawn_route, old(count(Spawn_route)) + j, 1) == iface(c))
+//@     invariant [C05.acks]  count(Send) - old(count(Send)) == count(AckReqRead) - old(count(AckReqRead))
+//@     invariant [C09.count] c.Session.SMState.Inbound - old(c.Session.SMState.Inbound) == count(StanzaRead) - old(count(StanzaRead))
+//@     invariant [C12.once]  count(ErrorHandler) - old(count(ErrorHandler)) == count(StreamErrRead) - old(count(StreamErrRead)) && count(Close) == old(count(Close))
+//@     invariant [C12.event] c.Handler != nil ==> count(EventHandler) - old(count(EventHandler)) == count(StreamErrRead) - old(count(StreamErrRead))
+
+// ---------------------------------------------------------------------------
+// Session: stream features are decoded afresh on every stream (re)start (C14 "advertised", C03)
+//
+//@ event Decoded(v Iface, ok Bool)
+//@ event StreamStarted(t Iface, ok Bool)
+//@ pred freshList(l) := l == nil || fresh(l)
+//@ func (xmpp.Transport).StartStream(t) (id, err)
+//@   emit StreamStarted(t, err == nil)
+//
+//@ func (*xmpp.Session).extractStreamFeatures(s) (f)
+//@   requires s != nil && s.transport != nil
+//@   ensures [C14.features.fresh] s.err == nil ==> freshList(f.Mechanisms.Mechanism)
+//@   ensures [C03.features.read]  count(Decoded) == old(count(Decoded)) + 1 && (s.err == nil) == last(Decoded, 1)
+//@   ensures s.transport == old(s.transport)
+//@   assigns s.err
+//@   emits Decoded
+//
+//@ func (*xmpp.Session).init(s)
+//@   requires s != nil && s.transport != nil
+//@   ensures [C14.features.fresh] s.err == nil ==> freshList(s.Features.Mechanisms.Mechanism)
+//@   ensures [C03.features.read]  count(Decoded) == old(count(Decoded)) + 1 && (s.err == nil) == last(Decoded, 1)
+//@   ensures s.transport == old(s.transport)
+//@   assigns s.err, s.Features
+//@   emits Decoded
+//
+//@ func (*xmpp.Session).reset(s)
+//@   requires s != nil && s.transport != nil
+//@   ensures [C14.features.fresh] s.err == nil ==> freshList(s.Features.Mechanisms.Mechanism)
+//@   ensures [C03.restart] count(StreamStarted) == old(count(StreamStarted)) + 1 && last(StreamStarted, 0) == s.transport
+//@   ensures [C03.restart.ok] s.err == nil ==> last(StreamStarted, 1) && count(Decoded) == old(count(Decoded)) + 1 && last(Decoded, 1) && atlast(StreamStarted) < atlast(Decoded)
+//@   ensures [C03.restart.failed] !last(StreamStarted, 1) ==> s.err != nil && count(Decoded) == old(count(Decoded))
+//@   ensures s.transport == old(s.transport)
+//@   assigns s.err, s.Features, s.StreamId
+//@   emits Decoded, StreamStarted
